@@ -3,6 +3,8 @@
     Inv_*.v files where they are proved).  See DESIGN.md section 5 for how each renders the property. *)
 From CB Require Import ProofLib Spec MonitorSound Results.
 From CB Require Import Inv_merge Passive Bcast_merge_combine.
+From CB Require Import Chain Programs Tree TreePrograms TreeFunctional Order_nary Inv_for_each.
+
 
 Theorem C08_merge_order p :
   nsinks p = 1 -> resub p = false -> no_nest p = false -> c14 p = false -> late_ok p = true ->
@@ -101,4 +103,28 @@ Theorem C08_merge_error_broadcast p n e :
       reach p g_std c'.
 Proof. exact (@merge_error_broadcast p n e). Qed.
 Print Assumptions C08_merge_error_broadcast.
+
+
+(** ** each member's own order is preserved: the output is an interleaving of the members' sequences *)
+
+Theorem C08_merge_interleaves n p :
+  nsinks p = 1 -> resub p = false -> no_nest p = false -> c14 p = false -> 1 <= n ->
+  forall c : cfg (merge_op n), reach p g_std c ->
+    interleave (map (fun k => data_in k (trace c)) (seq 0 n)) (data_out 0 (trace c)).
+Proof. exact (@merge_interleaves n p). Qed.
+Print Assumptions C08_merge_interleaves.
+
+(** inside a program: an interleaving of the wired members' outputs *)
+Theorem C08_prog_merge (ts : list tnode) (es : list edge) (N : tnet)
+  (Hok : Forall tnode_ok ts) (Hes : edges_okb es (length ts) = true)
+  (Hsink : forall e, In e es -> nth_error ts (e_child e) <> Some TSink)
+  (Hr : tnet_reach (wiring_of es) (prog_net ts) N) (Hidle : tpend N = PIdle)
+  i n k (kids : list nat) (Us : list node) :
+    nth_error (tnodes N) i = Some n -> nth_error ts i = Some (TMerge k) ->
+    length kids = k -> length Us = k ->
+    (forall j c U, nth_error kids j = Some c -> nth_error Us j = Some U ->
+       In (c, i, j) es /\ nth_error (tnodes N) c = Some U) ->
+    interleave (map (fun U => data_out 0 (ntrace U)) Us) (data_out 0 (ntrace n)).
+Proof. exact (@prog_merge ts es N Hok Hes Hsink Hr Hidle i n k kids Us). Qed.
+Print Assumptions C08_prog_merge.
 
